@@ -134,7 +134,7 @@ def _wseg(r) -> bytes:
 def windows_path(r) -> tuple[bytes, str]:
     """One of the documented shapes. Returns (text, expected type)."""
     shape = r.randrange(10)
-    nseg = r.randint(1, 4)
+    nseg = r.randint(1, 4) if r.random() < 0.98 else r.choice([70, 400, 3000])  # MAX_PATH is not a limit of the syntax
     segs = []
     for _ in range(nseg):
         x = r.random()
@@ -299,6 +299,12 @@ def url(r, escapes=True) -> dict:
                 if pk == "esc" or (escapes and x > 0.8):
                     s = esc_some(r, s, 0.3, b" /%?#A.\xe9\x00")
                 segs.append(s)
+    if r.random() < 0.02:
+        # longer than any plausible fixed limit on URL length
+        pk = "long"
+        segs = [bytes(r.choice(LOWER + DIGITS + b"-_~") for _ in range(r.randint(1, 8))) for _ in range(r.choice([60, 500, 2500]))]
+        for _ in range(r.randint(0, 3)):
+            segs[r.randrange(len(segs))] = r.choice([b"..", b".", b"%2e%2E"])
     if pk == "none":
         path = b""
     elif pk == "slash":
